@@ -1,5 +1,6 @@
 import Driver.Sexp
 import IweModel.Model.Path
+import Driver.GraphOps
 
 open Iwe
 
@@ -18,6 +19,11 @@ def dispatch : Sexp → Except String Sexp
   | .list [.atom "key.fromFileName", .str n] => .ok (.str (ofChars (Path.fromFileName (chars n))))
   | .list [.atom "key.toPath", .str n] => .ok (.str (ofChars (Path.toPath (chars n))))
   | .list [.atom "isRefUrl", .str u] => .ok (.atom (if Path.isRefUrl (chars u) then "true" else "false"))
+  | .list [.atom "graph.history", .str ext, .list (.atom "import" :: imp), .list (.atom "steps" :: steps)] =>
+    GraphOps.history ext imp steps
+  | .list [.atom "arena.wf", .list (.atom "arena" :: nodes), .list (.atom "keys" :: keys)] =>
+    GraphOps.arenaWf nodes keys
+  | .list [.atom "arena.nav", .list (.atom "arena" :: nodes)] => GraphOps.arenaNav nodes
   | other => .error s!"unknown request {other.toStr.take 80}"
 
 partial def loop (h : IO.FS.Stream) (out : IO.FS.Stream) : IO Unit := do
